@@ -230,6 +230,16 @@ func fileEvent1(bf *BuiltFile, name string, withBytes bool) (Ev, *Decoded, error
 	})
 	db.Close()
 	e := Ev{"ev": "File", "name": name, "ps": d.PageSize, "api": map[string]any{"txid": txid, "hwm": hwm, "root": api}, "graph": graphOf(d), "pinfo": pinfo}
+	// the command-line views of the same file: `bbolt pages` (a table of the pages) and `bbolt info`
+	e["cliPages"], e["cliInfo"], e["cli"] = []map[string]any{}, 0, false
+	if withBytes {
+		if rows, ok := CLIPages(bf.Path); ok {
+			e["cliPages"], e["cliInfo"], e["cli"] = rows, CLIInfo(bf.Path), true
+		} else {
+			e["cliInfo"] = -2 // the command failed: a mismatch
+			e["cli"] = true
+		}
+	}
 	if withBytes {
 		n := int(d.Hwm) * d.PageSize
 		if n > len(raw) {
